@@ -1,10 +1,10 @@
 package main
 
 import (
-	"github.com/tidwall/geojson/geometry"
-	"github.com/tidwall/geojson"
 	"bufio"
 	"fmt"
+	"github.com/tidwall/geojson"
+	"github.com/tidwall/geojson/geometry"
 	"os"
 	"strings"
 	"sync"
@@ -78,10 +78,33 @@ func c16Race(args []string) {
 				}
 				es = append(es, ent{o: geojson.NewLineString(geometry.NewLine(ps, nil)), probe: geojson.NewPoint(ps[35])})
 			}
+			// parsed objects whose positions carry third / fourth ordinates (serialisers walk side tables)
+			for i := 0; i < 64; i++ {
+				var ps []string
+				for k := 0; k < 40; k++ {
+					ps = append(ps, fmt.Sprintf("[%d,%d,%d,%d]", i+k%7, k/7, 100+k, k%5))
+				}
+				doc := `{"type":"LineString","coordinates":[` + strings.Join(ps, ",") + `]}`
+				if i%2 == 1 {
+					doc = `{"type":"Feature","geometry":{"type":"Polygon","coordinates":[[[0,0,1],[8,0,2],[8,8,3],[0,8,4],[0,0,5]],[[2,2,6],[2,4,7],[4,4,8],[4,2,9],[2,2,10]]]},"properties":{"i":` + fmt.Sprint(i) + `}}`
+				}
+				o, err := geojson.Parse(doc, nil)
+				if err != nil {
+					panic(err)
+				}
+				es = append(es, ent{o: o, probe: geojson.NewPoint(geometry.Point{X: 1, Y: 1})})
+			}
 			return es
 		}
 		ask := func(e ent) string {
-			return fmt.Sprint(e.o.Rect(), e.o.Contains(e.probe), e.o.Intersects(e.probe), e.probe.Within(e.o), e.o.Valid())
+			js := ""
+			if _, isCircle := e.o.(*geojson.Circle); !isCircle {
+				js = e.o.JSON()
+				if len(js) > 3000 {
+					js = js[:3000]
+				}
+			}
+			return fmt.Sprint(e.o.Rect(), e.o.Contains(e.probe), e.o.Intersects(e.probe), e.probe.Within(e.o), e.o.Valid(), js)
 		}
 		ref := mk()
 		for i := range ref {
@@ -89,7 +112,7 @@ func c16Race(args []string) {
 		}
 		passes := 3
 		if thorough {
-			passes = 20
+			passes = 8
 		}
 		for pass := 0; pass < passes; pass++ {
 			pool := mk() // fresh objects in every pass
